@@ -332,6 +332,10 @@ def r07_2(ctx, g):
                     if bufs and resets:
                         ctx.violated("R07.2", run.where(resets[0]), f"the buffer `{norm(resets[0].targets[0])}` that collects the L lines is emptied for every per-chromosome file: only the links of the last chromosome reach the complete file", key_of(run, "concat-buffer-reset-per-file"))
                         return
+        from .shared import none_slice_bounds
+
+        if none_slice_bounds(ctx, run, "R07.2"):
+            return
         raise AnalysisError("R07.2", run.where(), "cannot find the concatenation of the per-chromosome GFA files (S pass / L pass)")
     w = withs[0]
     seq = [pass_of(st) for st in w.body]
